@@ -1,5 +1,6 @@
 import ClaripyProofs.Lemmas.FP.FoldD2
 import ClaripyProofs.Lemmas.FP.RoundModes
+import ClaripyProofs.Lemmas.FP.FoldF
 /-!
 # C02 — IEEE-754 meaning of floating-point folding in every rounding mode
 
@@ -130,6 +131,33 @@ example : div D .RNE 0 0 = D.nanBits ∧ div D .RNE 0xFFF0000000000000 0 = 0xFFF
 Z3 on every FLOAT case of every run. -/
 def DoubleRoundingInnocuous (op : Fmt → RM → Nat → Nat → Nat) : Prop :=
   ∀ a b : Nat, narrow (op D .RNE (widen a) (widen b)) = op F .RNE a b
+
+/-! ### proved for FLOAT without any hypothesis: everything that does not round, and everything that rounds only once -/
+
+/-- FLOAT → DOUBLE is exact, so the ignored rounding-mode argument does no harm: fold = specification in ALL FIVE modes -/
+theorem fold_widen_all_modes (rm : RM) (a : Nat) : fpToFP_fp F D rm a = cvt F D rm a := fpToFP_widen rm a
+
+/-- comparisons and classification of FLOATs (the fold compares the widened Python floats), every operand -/
+theorem fold_cmp_float (a b : Nat) :
+    fpEQ F a b = feq F a b ∧ fpNEQ F a b = fneq F a b ∧ fpLT F a b = flt F a b ∧ fpLEQ F a b = fleq F a b ∧
+    fpGT F a b = fgt F a b ∧ fpGEQ F a b = fgeq F a b ∧ fpIsNaN F a = isNaN F a ∧ fpIsInf F a = isInf F a := cmp_F a b
+
+theorem fold_neg_abs_float (a : Nat) (hn : isNaN F a = false) : fpNeg F a = neg F a ∧ fpAbs F a = abs F a :=
+  ⟨fpNeg_F a hn, fpAbs_F a hn⟩
+
+/-- `fpToIEEEBV` returns the bit pattern for every non-NaN value of both sorts -/
+theorem fold_to_ieee_bv (a : Nat) :
+    (a < 2 ^ 64 → isNaN D a = false → fpToIEEEBV D a = a) ∧ (a < 2 ^ 32 → isNaN F a = false → fpToIEEEBV F a = a) :=
+  fpToIEEEBV_ok a
+
+/-- float → bit-vector conversions of a FLOAT, all five modes -/
+theorem to_bv_spec_float (rm : RM) (a w v : Nat) :
+    (toSBV F rm a w = some v → fpToBV F rm a w = v) ∧ (toUBV F rm a w = some v → fpToBV F rm a w = v) :=
+  fpToBV_F rm a w v gen_table_is_smtlib
+
+/-- DOUBLE → FLOAT under RNE is the single `struct.pack('f')` rounding -/
+theorem fold_narrow_rne (a : Nat) (ha : a < 2 ^ 64) (hn : isNaN D a = false) : fpToFP_fp D F .RNE a = cvt D F .RNE a := by
+  unfold fpToFP_fp lower narrow; rw [if_pos rfl, lift_D_notnan a ha hn]
 
 /-- full statement for FLOAT -/
 def fold_float_rne_full : Prop := ∀ a b : Nat, fpAdd F .RNE a b = add F .RNE a b ∧ fpMul F .RNE a b = mul F .RNE a b
